@@ -3,6 +3,8 @@
 //verif:assume end to end through the real code: implUpload (uploadBundle, uploadBundleFiles, real cafs writer), then implPublish into a fresh consumable store (unpackBundleDescriptor, unpackBundleFileList, unpackDataFiles, real cafs reader with hash verification); BLAKE2b is an injective uninterpreted function, yaml.v2 round-trips opaque documents, ksuid.NewRandom yields fresh ids, stores are in-memory models
 //verif:assume tree: files a (2 symbolic bytes), d/b (1 symbolic byte), e (empty) each present or absent, plus generated-path decoys .datamon/x and d/.datamon (a legal user file); leaf size 64; entries per index file 1..3
 //verif:cover VerifC04Reassembly malformed-middle-file reassembled
+//verif:assume faults: a fixed tree (a: 70 bytes over two leaves, d/b: 1 byte, e: empty; 2 entries per index file) uploaded or downloaded with one transient fault at a solver-chosen store call (source / metadata / blob / destination store, reads and listings included)
+//verif:cover VerifC04Faults upload-faulted download-faulted operation-failed operation-survived-the-fault
 //verif:cover VerifC04Select missing-skipped single-file filtered
 //verif:cover VerifC04UploadDownload decoy-skipped nested-datamon-kept two-index-files empty-bundle source-read-fault-reported unreadable-source-file-skipped duplicated-content
 package core
@@ -266,6 +268,79 @@ func VerifC04Reassembly() {
 	for i := range want {
 		if i < len(b.BundleEntries) {
 			vAssert(b.BundleEntries[i].NameWithPath == want[i], "entries-in-index-order-whatever-the-arrival-order")
+		}
+	}
+}
+
+// VerifC04Faults: one transient store fault at any store call of an upload or of a download: the operation reports
+// the failure, or its result is complete - an upload that reports success downloads with every file and byte,
+// a download that reports success has written every file completely.
+func VerifC04Faults() {
+	vBudget(900000000)
+	vUnwind(300000)
+	meta, blob := vRepoStores()
+	stores := vCtxStoresAll(meta, meta, blob)
+	ctx := context.Background()
+	vAssert(CreateRepo(model.RepoDescriptor{Name: "r", Description: "d", Contributor: model.Contributor{Name: "n", Email: "e@x.io"}}, stores) == nil, "create-repo")
+	big := make([]byte, 70)
+	for i := range big {
+		big[i] = byte(7*i + 1)
+	}
+	want := map[string][]byte{"a": big, "d/b": []byte("b"), "e": {}}
+	src := newVStore("src")
+	for _, n := range []string{"a", "d/b", "e"} {
+		src.putRaw(n, want[n])
+	}
+	const E = 2
+	newUp := func() *Bundle {
+		b := NewBundle(Repo("r"), ContextStores(stores), ConsumableStore(src), Logger(zap.NewNop()),
+			BundleDescriptor(model.NewBundleDescriptor(model.Message("m"), model.BundleContributor(model.Contributor{Name: "n", Email: "e@x.io"}))),
+			ConcurrentFileUploads(1))
+		b.BundleDescriptor.LeafSize = 64
+		return b
+	}
+	dst := newVStore("dst")
+	cr := &vCrasher{stores: []*vStore{meta, blob, src, dst}, allCalls: true, transient: true}
+	cr.crashAt = vInt("faultAt", 1, 40)
+	duringUpload := vChoose("faultDuring", 2) == 0
+	up := newUp()
+	if duringUpload {
+		vCover("upload-faulted")
+		cr.install()
+	}
+	uerr := implUpload(ctx, up, E, nil)
+	if duringUpload {
+		cr.revive()
+		vAssume(cr.crashed)
+		if uerr != nil {
+			vCover("operation-failed")
+			return
+		}
+		vCover("operation-survived-the-fault")
+	} else {
+		vAssert(uerr == nil, "upload-succeeds")
+		vCover("download-faulted")
+		cr.install()
+	}
+	down := NewBundle(Repo("r"), ContextStores(stores), ConsumableStore(dst), BundleID(up.BundleID), Logger(zap.NewNop()), ConcurrentFileDownloads(1), ConcurrentFilelistDownloads(1))
+	derr := implPublish(ctx, down, E, nil)
+	if !duringUpload {
+		cr.revive()
+		vAssume(cr.crashed)
+		if derr != nil {
+			vCover("operation-failed")
+			return
+		}
+		vCover("operation-survived-the-fault")
+	} else {
+		vAssert(derr == nil, "bundle-of-an-upload-that-reported-success-downloads")
+	}
+	vAssert(len(down.BundleEntries) == len(want), "listed-entries-match-uploaded-files")
+	for name, content := range want {
+		got, ok := dst.data[name]
+		vAssert(ok, "every-file-is-downloaded")
+		if ok {
+			vAssert(vBytesEqual(got, content), "downloaded-bytes-equal-uploaded-bytes")
 		}
 	}
 }
